@@ -204,7 +204,7 @@ macro_rules! dispatch_uni {
         match ($b, $m) {
             (2, 1) => go!(2, 1), (2, 2) => go!(2, 2),
             (4, 1) => go!(4, 1), (4, 2) => go!(4, 2),
-            (8, 1) => go!(8, 1), (8, 2) => go!(8, 2),
+            (8, 1) => go!(8, 1), (8, 2) => go!(8, 2), (8, 4) => go!(8, 4),
             other => panic!("dispatch_uni: unsupported (BUFFER, MAX_STREAMS) {:?}", other),
         }
     }}
